@@ -125,20 +125,22 @@ def Tree.kind : Tree → Nat
 def unwrapNode (it : List Tree) (kinds : List Nat) : Option Tree :=
   it.find? (fun t => kinds.contains t.kind)
 
-/-- `get_str_trim` (lib.rs:42-68): boolean `skip`, set on Enter(WhiteSpace), cleared on Leave(WhiteSpace).
+/-- `get_str_trim` (lib.rs:42-68): `skip` counts the `WhiteSpace` nodes currently open
+    (incremented on Enter(WhiteSpace), decremented on Leave(WhiteSpace)); a `Locate` counts when it is 0.
     `wsKind` is the kind number of `WhiteSpace`. -/
 structure TrimSt where
   beg : Option Nat := none
   en : Nat := 0
-  skip : Bool := false
+  skip : Nat := 0
 deriving Repr, BEq, DecidableEq
 
 def trimStep (wsKind : Nat) (s : TrimSt) : Event → TrimSt
-  | .enter (.node k _) => if k = wsKind then { s with skip := true } else s
-  | .leave (.node k _) => if k = wsKind then { s with skip := false } else s
+  | .enter (.node k _) => if k = wsKind then { s with skip := s.skip + 1 } else s
+  | .leave (.node k _) => if k = wsKind then { s with skip := s.skip - 1 } else s
   | .enter (.leaf o l _) =>
-      if s.skip then s else
-      { s with beg := (match s.beg with | none => some o | some b => some b), en := o + l }
+      if s.skip = 0 then
+        { s with beg := (match s.beg with | none => some o | some b => some b), en := o + l }
+      else s
   | .leave (.leaf ..) => s
 
 def getStrTrimRange (wsKind : Nat) (evs : List Event) : Option (Nat × Nat) :=
